@@ -858,3 +858,49 @@ def install_can(models):
 
 
 install_can(MODELS)
+
+
+# ---- rich (A-lib): tables are ghost objects whose rows are recorded as events; printing is a no-op
+class GhostTable:
+
+    def __init__(self, *a, **kw):
+        self.columns = []
+        self.rows = []
+
+    def add_column(self, *a, **kw):
+        self.columns.append(a[0] if a else None)
+
+    def add_row(self, *a, **kw):
+        self.rows.append(tuple(a))
+        if ops.CUR_ENGINE is not None:
+            ops.CUR_ENGINE.event("table_row", tuple(a))
+
+
+def install_rich(models):
+    try:
+        import rich
+        from rich.table import Table
+        from rich.padding import Padding
+    except ImportError:
+        return
+
+    def m_table(I, args, kwargs):
+        return GhostTable()
+
+    def m_add_column(I, args, kwargs):
+        args[0].columns.append(args[1] if len(args) > 1 else None)
+        return None
+
+    def m_add_row(I, args, kwargs):
+        args[0].rows.append(tuple(args[1:]))
+        I.e.event("table_row", tuple(args[1:]))
+        return None
+
+    models[Table] = m_table
+    models[Table.add_column] = m_add_column
+    models[Table.add_row] = m_add_row
+    models[rich.print] = m_noop
+    models[Padding] = lambda I, args, kwargs: args[0] if args else None
+
+
+install_rich(MODELS)
